@@ -146,19 +146,20 @@ private theorem feeFields_plain (fs : List (Nat × Nat)) :
   | nil => rfl
   | cons p ps ih => simp [feeFieldsOf] at ih ⊢; exact ih
 
+private theorem low_bits_plain (fs : List (Nat × Nat)) (hf : ∀ p ∈ fs, p.1 < 2^40) :
+    (fs.map (fun p => packFee p.1 p.2)).map (· % 2^40) = fs.map (·.1) := by
+  induction fs with
+  | nil => rfl
+  | cons p ps ih =>
+    rw [List.map_cons, List.map_cons, List.map_cons, ih (fun q hq => hf q (List.mem_cons_of_mem _ hq)),
+        packFee_fee (hf p List.mem_cons_self)]
+
 /-- for plain kernels built from `(fee, shift)` pairs the code's `fee()` is the plain sum of the fees as
 long as that sum fits a u64 (the pool model's `natSum`) -/
 theorem body_fee_plain (fs : List (Nat × Nat)) (hf : ∀ p ∈ fs, p.1 < 2^40)
     (hsum : (fs.map (·.1)).sum < 2^64) :
     Fns.TransactionBody_fee (fs.map fun p => ⟨.Plain (packFee p.1 p.2)⟩) = (fs.map (·.1)).sum := by
-  rw [body_fee_eq, feeFields_plain, List.map_map]
-  have : fs.map ((· % 2^40) ∘ fun p => packFee p.1 p.2) = fs.map (·.1) := by
-    apply List.map_congr_left
-    intro p hp
-    have h40 := hf p hp
-    simp only [Function.comp_apply, packFee]
-    rw [Nat.add_comm, Nat.add_mul_mod_self_right, Nat.mod_eq_of_lt h40]
-  rw [this]
+  rw [body_fee_eq, feeFields_plain, low_bits_plain fs hf]
   exact Nat.min_eq_left (Nat.le_sub_one_of_lt hsum)
 
 example : Fns.TransactionBody_fee ([(500, 3), (7, 0)].map fun p => ⟨.Plain (packFee p.1 p.2)⟩) = 507 := by
